@@ -176,6 +176,22 @@ def scenarios(tier):
                            'X': [['sleep', 0.25 if c == 't' else 0.5],
                                  ['sched', c, d, 'f1']]},
                 'horizon': 5.0}))
+    # S11: the last task that ran (on any clock) raised; a plain thread then
+    # schedules on the same or another clock: the error may not leave the
+    # library's notion of the present frozen at the faulty task's time
+    for c1 in ('s', 't', 'a'):
+        for c2 in ('s', 't', 'a'):
+            for kind in ('func', 'awakeable'):
+                cl = dict(clocks_for(c1))
+                cl.update(clocks_for(c2))
+                out.append(('S11', {
+                    'clocks': cl,
+                    'funcs': {'f0': {'raises': [0], 'kind': kind},
+                              'f1': {}},
+                    'actors': {'main': [['sched', c1, 0.25, 'f0'],
+                                        ['sleep', 1.0],
+                                        ['sched', c2, 0.5, 'f1']]},
+                    'horizon': 4.0}))
     # S9: a task on one clock schedules onto another clock
     out.append(('S9', {
         'clocks': {'s': ['system'], 't': ['tempo', 2.0]},
